@@ -1,2 +1,109 @@
+//! C32: replay TLC-generated path cases (spec/MC_Paths) through the real
+//! `RepoPathBuf::parse_fs_path`, `RepoPath::to_fs_path` and
+//! `RepoPathUiConverter`; log results as token sequences for Trace_Paths.
+use std::path::Path;
+use std::path::PathBuf;
+
+use jj_lib::repo_path::RepoPath;
+use jj_lib::repo_path::RepoPathBuf;
+use jj_lib::repo_path::RepoPathUiConverter;
 use jjconf::util::Opts;
-pub fn run(_opts: &Opts) -> Result<(), String> { Err("todo".into()) }
+use jjconf::util::Out;
+use jjconf::util::catch;
+use jjconf::util::read_ndjson;
+use serde_json::Value;
+use serde_json::json;
+
+use crate::matchers::comps_of;
+
+/// Token "uu" stands for a non-ASCII file name (TLC state strings must stay ASCII).
+fn text_of(tok: &str) -> &str {
+    if tok == "uu" { "\u{fc}" } else { tok }
+}
+
+fn tok_of(text: &str) -> String {
+    if text == "\u{fc}" { "uu".to_string() } else { text.to_string() }
+}
+
+fn rel_text(comps: &[String]) -> String {
+    comps.iter().map(|c| text_of(c)).collect::<Vec<_>>().join("/")
+}
+
+fn abs_text(comps: &[String]) -> String {
+    format!("/{}", rel_text(comps))
+}
+
+fn repo_comps(p: &RepoPath) -> Vec<String> {
+    p.components().map(|c| tok_of(c.as_internal_str())).collect()
+}
+
+fn parse_result<E>(r: Result<RepoPathBuf, E>) -> Value {
+    match r {
+        Ok(p) => json!({"ok": true, "out": repo_comps(&p)}),
+        Err(_) => json!({"ok": false, "out": []}),
+    }
+}
+
+/// Raw split of an absolute path text (no normalisation: ".", "..", "" stay visible).
+fn fs_tokens(p: &Path) -> Value {
+    let s = p.to_string_lossy().to_string();
+    match s.strip_prefix('/') {
+        Some("") => json!({"abs": true, "toks": []}),
+        Some(rest) => json!({"abs": true, "toks": rest.split('/').map(tok_of).collect::<Vec<_>>()}),
+        None if s.is_empty() => json!({"abs": false, "toks": []}),
+        None => json!({"abs": false, "toks": s.split('/').map(tok_of).collect::<Vec<_>>()}),
+    }
+}
+
+fn one(case: &Value, base: &Path) -> Value {
+    let cwd_c = comps_of(&case["cwd"]);
+    let toks = comps_of(&case["toks"]);
+    let cwd = PathBuf::from(abs_text(&cwd_c));
+    let kind = case["kind"].as_str().unwrap_or("?");
+    match kind {
+        "rel" | "abs" => {
+            let text = if kind == "abs" { abs_text(&toks) } else { rel_text(&toks) };
+            let r = RepoPathBuf::parse_fs_path(&cwd, base, &text);
+            json!({"op":"parse","cwd":cwd_c,"abs":kind == "abs","toks":toks,"text":text,"r":parse_result(r)})
+        }
+        "repo" => {
+            let text = rel_text(&toks);
+            let none = json!({"ok": false, "out": []});
+            let Ok(p) = RepoPath::from_internal_string(&text) else {
+                return json!({"op":"repo","cwd":cwd_c,"toks":toks,"internal_ok":false,"pc":[],
+                    "fs":{"ok":false,"abs":true,"toks":[]},"back":none,"ui":{"abs":false,"toks":[]},"back_ui":none});
+            };
+            let conv = RepoPathUiConverter::Fs { cwd: cwd.clone(), base: base.to_owned() };
+            let (fs, back) = match p.to_fs_path(base) {
+                Ok(f) => {
+                    let mut v = fs_tokens(&f);
+                    v["ok"] = json!(true);
+                    (v, parse_result(RepoPathBuf::parse_fs_path(&cwd, base, &f)))
+                }
+                Err(_) => (json!({"ok":false,"abs":true,"toks":[]}), none.clone()),
+            };
+            let ui = conv.format_file_path(p);
+            let back_ui = parse_result(conv.parse_file_path(&ui));
+            json!({"op":"repo","cwd":cwd_c,"toks":toks,"internal_ok":true,"pc":repo_comps(p),
+                "fs":fs,"back":back,"ui":fs_tokens(Path::new(&ui)),"back_ui":back_ui})
+        }
+        k => json!({"op":"harness-error","msg":format!("unknown kind {k}")}),
+    }
+}
+
+pub fn run(opts: &Opts) -> Result<(), String> {
+    jjconf::util::quiet_panics();
+    let cases = read_ndjson(&opts.str("cases", "cases.ndjson"))?;
+    let mut out = Out::create(&opts.str("out", "trace.ndjson"))?;
+    let base_c: Vec<String> = opts.str("base", "a").split(',').map(|s| s.to_string()).collect();
+    let base = PathBuf::from(abs_text(&base_c));
+    for c in &cases {
+        let (cc, bb) = (c.clone(), base.clone());
+        match catch(move || one(&cc, &bb)) {
+            Ok(v) => out.emit(&v),
+            Err(msg) => out.emit(&json!({"op":"panic","case":c,"msg":msg})),
+        }
+    }
+    out.finish();
+    Ok(())
+}
